@@ -46,6 +46,8 @@ ASSUMPTIONS = [
     "raw parameter vector it is handed (numpy dense-matrix estimator of this harness; the Qulacs vector estimator is used as a second one)",
     "documented gate matrices (gates.py) define the semantics",
     "RawDistinct: raw parameters of distinct gates are distinct (violated by combining the same sub-circuit twice — finding F6)",
+    "the estimator is total: an empty batch of parameter vectors has the empty answer (library estimators that reject an empty "
+    "batch are answered by the harness and counted under estimator_rejects_empty_batch)",
 ]
 
 
@@ -192,35 +194,78 @@ def real_fixed_gate(g):
     return getattr(G, k)(g["t"][0])
 
 
-def real_angle(ang, ps):
+def real_angle(ang, ps, int_coef=False):
     from quri_parts.circuit import CONST
 
     if "p" in ang:
         return ps[ang["p"]]
-    return {(CONST if k == "c" else ps[k]): float(Fraction(*c)) for k, c in ang["f"]}
+    out = {}
+    for k, c in ang["f"]:
+        f = Fraction(*c)
+        out[CONST if k == "c" else ps[k]] = int(f) if (int_coef and f.denominator == 1) else float(f)
+    return out
 
 
-def build_linear(spec, n=None):
-    from quri_parts.circuit import LinearMappedParametricQuantumCircuit
+def _needed_params(ang):
+    if "p" in ang:
+        return ang["p"] + 1
+    return max([k + 1 for k, _ in ang["f"] if k != "c"] + [0])
 
-    c = LinearMappedParametricQuantumCircuit(n or spec["n"])
-    ps = c.add_parameters(*[f"t{i}" for i in range(spec["P"])])
-    for g in spec["gates"]:
+
+def _add_spec_gates(c, spec, start, stop, lazy, finish):
+    """append spec["gates"][start:stop] to the real linear-mapped circuit `c`; parameters that are not declared yet are
+    declared on demand (lazy) — `finish` declares the remaining ones at the end"""
+    build = spec.get("build") or {}
+    int_coef = bool(build.get("int_coef"))
+    single = bool(build.get("add_parameter"))
+
+    def declare(upto):
+        have = len(c.param_mapping.in_params)
+        if upto > have:
+            if single:
+                for i in range(have, upto):
+                    c.add_parameter(f"t{i}")
+            else:
+                c.add_parameters(*[f"t{i}" for i in range(have, upto)])
+
+    if not lazy:
+        declare(spec["P"])
+    for g in spec["gates"][start:stop]:
         if "ang" in g:
-            a = real_angle(g["ang"], ps)
+            declare(_needed_params(g["ang"]))
+            a = real_angle(g["ang"], c.param_mapping.in_params, int_coef)
             if g["k"] == "PPR":
                 c.add_ParametricPauliRotation_gate(g["t"], g["ids"], a)
             else:
                 getattr(c, {"PRX": "add_ParametricRX_gate", "PRY": "add_ParametricRY_gate", "PRZ": "add_ParametricRZ_gate"}[g["k"]])(g["t"][0], a)
         else:
             c.add_gate(real_fixed_gate(g))
+    if finish:
+        declare(spec["P"])
+
+
+def build_linear(spec, n=None, upto=None):
+    """the real LinearMappedParametricQuantumCircuit of a spec (spec["build"]: optional construction details — lazy
+    parameter declaration, add_parameter instead of add_parameters, Python-int coefficients); `upto`: only the first
+    `upto` gates (the circuit is completed later by grow_linear)"""
+    from quri_parts.circuit import LinearMappedParametricQuantumCircuit
+
+    c = LinearMappedParametricQuantumCircuit(n or spec["n"])
+    lazy = bool((spec.get("build") or {}).get("lazy")) or upto is not None
+    _add_spec_gates(c, spec, 0, len(spec["gates"]) if upto is None else upto, lazy, finish=upto is None)
     return c
 
 
-def build_primitive(spec):
+def grow_linear(c, spec, start):
+    """mutate the real circuit `c` (built from the first `start` gates of the spec) into the circuit of the whole spec"""
+    _add_spec_gates(c, spec, start, len(spec["gates"]), True, finish=True)
+    return c
+
+
+def build_primitive(spec, n=None):
     from quri_parts.circuit import ParametricQuantumCircuit
 
-    c = ParametricQuantumCircuit(spec["n"])
+    c = ParametricQuantumCircuit(n or spec["n"])
     for g in spec["gates"]:
         if "ang" in g:
             if g["k"] == "PPR":
@@ -232,15 +277,87 @@ def build_primitive(spec):
     return c
 
 
+def build_real(spec):
+    """the real circuit of a spec following its construction recipe spec["build"] (absent = plain linear-mapped circuit):
+      kind   : "linear" | "primitive" | "concat" (two separately built parts joined by `how`)
+      how    : "add" (x + y) | "extend" | "iadd" | "combine"          (the last three need a linear-mapped x)
+      post   : None | "freeze" | "mutable_copy"
+    """
+    b = spec.get("build") or {}
+    kind = b.get("kind", "linear")
+    if kind == "primitive":
+        c = build_primitive(spec)
+    elif kind == "concat":
+        n = spec["n"]
+        x, y = [build_primitive(p, n) if (p.get("build") or {}).get("kind") == "primitive" else build_linear(p, n) for p in b["parts"]]
+        how = b.get("how", "add")
+        if how == "extend" and hasattr(x, "param_mapping") and type(x).__name__.startswith("LinearMapped"):
+            x.extend(y)
+            c = x
+        elif how == "iadd" and type(x).__name__.startswith("LinearMapped"):
+            x += y
+            c = x
+        elif how == "combine" and type(x).__name__.startswith("LinearMapped"):
+            c = x.combine(y)
+        else:
+            c = x + y
+    else:
+        c = build_linear(spec)
+    post = b.get("post")
+    if post == "freeze":
+        c = c.freeze()
+    elif post == "mutable_copy":
+        c = c.freeze().get_mutable_copy()
+    return c
+
+
 def real_operator(spec):
     from quri_parts.core.operator import PAULI_IDENTITY, Operator, pauli_label
 
     names = {1: "X", 2: "Y", 3: "Z"}
+
+    def label(term):
+        return pauli_label(" ".join(f"{names[p]}{q}" for q, p in term)) if term else PAULI_IDENTITY
+
+    if (spec.get("build") or {}).get("bare_label") and len(spec["op"]) == 1 and tuple(spec["op"][0][1]) == (1.0, 0.0):
+        return label(spec["op"][0][0])  # Estimatable = Operator | PauliLabel
     op = Operator()
     for term, (re, im) in spec["op"]:
-        lbl = pauli_label(" ".join(f"{names[p]}{q}" for q, p in term)) if term else PAULI_IDENTITY
-        op[lbl] = complex(re, im) if im else re
+        op[label(term)] = complex(re, im) if im else re
     return op
+
+
+THETA_FORMS = ["list", "tuple", "ndarray", "np-scalars", "mixed"]
+INT_THETA_FORMS = ["ints", "int-tuple", "int64-array", "int32-array", "mixed"]
+
+
+def apply_theta_form(form, theta):
+    """the same parameter point as another legal Sequence[float] object"""
+    import numpy as np
+
+    fl = [float(t) for t in theta]
+    if form == "tuple":
+        return tuple(fl)
+    if form == "ndarray":
+        return np.array(fl, dtype=np.float64)
+    if form == "np-scalars":
+        return [np.float64(t) for t in fl]
+    if form == "ints":
+        return [int(round(t)) for t in fl]
+    if form == "int-tuple":
+        return tuple(int(round(t)) for t in fl)
+    if form == "int64-array":
+        return np.array([int(round(t)) for t in fl], dtype=np.int64)
+    if form == "int32-array":
+        return np.array([int(round(t)) for t in fl], dtype=np.int32)
+    if form == "mixed":
+        return [int(t) if t == int(t) and i % 2 == 0 else (np.float64(t) if i % 3 == 1 else t) for i, t in enumerate(fl)]
+    return fl
+
+
+def snapshot(obj):
+    """(type name, element reprs) of a parameter container, to detect in-place modification by the callee"""
+    return type(obj).__name__, [repr(x) for x in obj]
 
 
 # ---------------------------------------------------------------------------
@@ -410,8 +527,10 @@ def mock_estimator(phis, log):
     return est
 
 
-def numpy_estimator(spec):
-    """exact estimator: dense-matrix expectation of the spec's operator in the state prepared by the REAL bound circuit"""
+def numpy_estimator(spec, mode="list"):
+    """exact estimator: dense-matrix expectation of the spec's operator in the state prepared by the REAL bound circuit.
+    `mode`: how the (equally legal) result is handed back — "list", "iter" (a one-shot iterator: the protocol says
+    Iterable[Estimate]), "tuple", "real" (Python float values, only sensible for a Hermitian operator)"""
     import numpy as np
 
     from oracle import c09deriv, dense
@@ -425,14 +544,23 @@ def numpy_estimator(spec):
             bc = state.parametric_circuit.bind_parameters(list(p))
             u = dense.circuit_unitary(n, bc.gates)
             psi = u[:, 0] if "init" not in spec else u @ np.array([complex(a, b) for a, b in spec["init"]])
-            res.append(Est(complex(np.vdot(psi, o @ psi)), 0.0))
+            v = complex(np.vdot(psi, o @ psi))
+            res.append(Est(v.real if mode == "real" else v, 0.0))
+        if mode == "iter":
+            return iter(res)
+        if mode == "tuple":
+            return tuple(res)
         return res
 
     return est
 
 
-def stub_state(pm):
-    """a ParametricCircuitQuantumState whose circuit only has a `param_mapping` (for mappings built directly)"""
+_NOT_GIVEN = object()
+
+
+def stub_state(pm, primitive=_NOT_GIVEN):
+    """a ParametricCircuitQuantumState whose circuit only has a `param_mapping` (for mappings built directly);
+    `primitive`: what with_primitive_circuit() returns (default: the stub itself)"""
     from quri_parts.core.state import ParametricCircuitQuantumState
 
     class _Circ:
@@ -447,7 +575,7 @@ def stub_state(pm):
             return _Circ
 
         def with_primitive_circuit(self):
-            return self
+            return self if primitive is _NOT_GIVEN else primitive
 
     return Stub()
 
@@ -465,11 +593,108 @@ def values_to_fracs(vals):
     return out
 
 
+def well_formed(ins, outs, entries) -> bool:
+    """in/out parameters pairwise different, exactly one entry per output parameter, only input parameters referenced"""
+    emap = dict(entries)
+    if len(set(ins)) != len(ins) or len(set(outs)) != len(outs) or len(emap) != len(entries) or set(emap) != set(outs):
+        return False
+    for tag, v in emap.values():
+        for k in ([v] if tag == "P" else [k for k, _ in v if k != "c"]):
+            if k not in ins:
+                return False
+    return True
+
+
+def trivial_expect(ins, outs, entries):
+    """(the mapping IS one-to-one: every raw parameter equals an input parameter of its own, no coefficient, no constant;
+        and it is WRITTEN that way: a bare Parameter or a one-item function {p: 1})"""
+    emap = dict(entries)
+    if len(ins) != len(outs):
+        return False, False
+    used, canon = [], True
+    for r in outs:
+        tag, v = emap[r]
+        if tag == "P":
+            k = v
+        else:
+            nz = [(k, c) for k, c in v if c != 0]
+            if len(nz) != 1 or nz[0][0] == "c" or nz[0][1] != 1:
+                return False, False
+            k = nz[0][0]
+            canon = canon and len(v) == 1
+        if k in used:
+            return False, False
+        used.append(k)
+    return True, canon
+
+
+def aux_mapping_checks(ctx: Ctx, pm, ins, outs, entries, vals, phis, inp):
+    """the two members of parameter_mapping.py the gradient code does not call itself but its callers / estimators do
+    (seq_mapper: φ = Mθ + b as a sequence function, wrong count rejected; is_trivial_mapping), judged by a direct
+    restatement of their documentation on well-formed mappings"""
+    rng = ctx.rng
+    fvals = [float(v) for v in vals]
+    wf = well_formed(ins, outs, entries)
+    try:
+        sm = pm.seq_mapper
+    except Exception as e:  # noqa: BLE001
+        ctx.disagree("seq_mapper (attribute)", inp, f"raises {exc_name(e)}", "a function of the parameter value sequence")
+        sm = None
+    if sm is not None:
+        form = rng.choice(THETA_FORMS)
+        try:
+            got = ("ok", [float(x) for x in sm(apply_theta_form(form, fvals))])
+        except Exception as e:  # noqa: BLE001
+            got = ("err", exc_name(e))
+        ctx.count("seq_mapper", got[0] if got[0] == "ok" else got[1])
+        if len(vals) != len(ins):
+            if got != ("err", "ValueError"):
+                ctx.witness("seq-mapper-length", f"seq_mapper accepts {len(vals)} values for {len(ins)} input parameters ({got[0]}: {str(got[1])[:80]})", inp)
+        elif wf and phis is not None:
+            want = [float(x) for x in phis]
+            if got[0] != "ok" or len(got[1]) != len(want) or any(abs(a - b) > 1e-12 * (1 + abs(b)) for a, b in zip(got[1], want)):
+                ctx.witness("seq-mapper-values", f"seq_mapper({form}) differs from the affine map of the mapping", inp,
+                            {"real": str(got)[:300], "expected": want})
+        if len(vals) == len(ins):
+            for bad in ([*fvals, 0.25], fvals[:-1]) if fvals else ([0.25],):
+                try:
+                    r = sm(bad)
+                    ctx.witness("seq-mapper-length", f"seq_mapper accepts {len(bad)} values for {len(ins)} input parameters", inp, {"returned": str(r)[:200]})
+                except ValueError:
+                    pass
+                except Exception as e:  # noqa: BLE001
+                    ctx.witness("seq-mapper-length", f"seq_mapper with {len(bad)} values for {len(ins)} input parameters raises {exc_name(e)}, not ValueError", inp)
+    if wf:
+        sem, canon = trivial_expect(ins, outs, entries)
+        try:
+            triv = ("ok", bool(pm.is_trivial_mapping))
+        except Exception as e:  # noqa: BLE001
+            triv = ("err", exc_name(e))
+        # An angle that is the bare constant 1 ({CONST: 1.0}) is counted by the unchanged code like "an input parameter of
+        # its own" (CONST is a Parameter): is_trivial_mapping is True for RX(a); RY(const 1) over (a, b).  That contradicts
+        # the docstring of has_trivial_parameter_mapping but not the statement of C09 (no gradient code reads the flag;
+        # C10's check leaves the case out as well), so it is counted in the evidence and not judged here.
+        const_one = any(tag == "F" and len(v) == 1 and v[0][0] == "c" and v[0][1] == 1 for tag, v in dict(entries).values())
+        ctx.count("is_trivial_mapping", str(triv[1]) + ("/one-to-one" if sem else "") + ("/constant-one-angle" if const_one else ""))
+        if triv[0] != "ok":
+            ctx.witness("trivial-mapping", f"is_trivial_mapping raises {triv[1]} on a well-formed mapping", inp)
+        elif triv[1] and not sem and const_one:
+            pass
+        elif triv[1] and not sem:
+            ctx.witness("trivial-mapping", "is_trivial_mapping is True but some raw parameter is not an unconverted input parameter of its own", inp)
+        elif not triv[1] and sem and canon:
+            ctx.witness("trivial-mapping", "every raw parameter is an input parameter of its own (bare or {p: 1}) but is_trivial_mapping is False", inp)
+
+
+def canon_pairs(res):
+    return sorted((tuple(float(x) for x in vec), float(co)) for vec, co in res)
+
+
 def analyse_mapping(ctx: Ctx, what, pm, vals, state, reqs, pend, order2=True, sample=None, spec=None):
     """run the real functions on one (mapping, parameter values) and queue the model requests"""
     from quri_parts.circuit.parameter_shift import ShiftedParameters
-    from quri_parts.core.estimator.gradient import parameter_shift_gradient_estimates
-    from quri_parts.core.estimator.hessian import parameter_shift_hessian_estimates
+    from quri_parts.core.estimator.gradient import create_parameter_shift_gradient_estimator, parameter_shift_gradient_estimates
+    from quri_parts.core.estimator.hessian import create_parameter_shift_hessian_estimator, parameter_shift_hessian_estimates
 
     ins, outs, entries, iid, rid = dump_mapping(pm)
     menc = enc_mapping(ins, outs, entries)
@@ -479,6 +704,14 @@ def analyse_mapping(ctx: Ctx, what, pm, vals, state, reqs, pend, order2=True, sa
     phis = py_phi(ins, outs, entries, vals)
     info["phis"] = phis
     fvals = [float(v) for v in vals]
+    inp0 = {"mapping": menc, "vals": venc, "source": what}
+    aux_mapping_checks(ctx, pm, ins, outs, entries, vals, phis, inp0)
+    # the parameter point as one of the legal Sequence[float] objects (same numbers)
+    forms = THETA_FORMS + (INT_THETA_FORMS if all(v == int(v) for v in fvals) else [])
+    form = ctx.rng.choice(forms) if ctx.rng.random() < 0.5 else "list"
+    pvals = apply_theta_form(form, fvals)
+    snap = snapshot(pvals)
+    ctx.count("param_container", form)
     # 1. derivative of the linear mapping
     try:
         dms = pm.get_derivatives()
@@ -505,6 +738,25 @@ def analyse_mapping(ctx: Ctx, what, pm, vals, state, reqs, pend, order2=True, sa
     except Exception as e:  # noqa: BLE001
         real["sp1"] = ("err", exc_name(e))
         d1, d2 = None, None
+    if d1 is not None and order2 and real.get("sp2", ("err",))[0] == "ok":
+        # the same first-order shift terms handed to the (public, dataclass) constructor in another legal Collection form:
+        # a tuple, a reversed list; the derivatives must be the ones of the frozenset original
+        i = ctx.rng.randrange(len(d1)) if d1 else None
+        if i is not None:
+            items = list(d1[i].shifts_with_coef)
+            cform = ctx.rng.choice(["tuple", "reversed-list"])
+            alt = tuple(items) if cform == "tuple" else list(reversed(items))
+            try:
+                got = ("ok", [canon_terms(x, rid) for x in ShiftedParameters(pm, alt).get_derivatives()])
+            except Exception as e:  # noqa: BLE001
+                got = ("err", exc_name(e))
+            want = real["sp2"][1][i]
+            same = got[0] == "ok" and len(got[1]) == len(want) and all(
+                [k for k, _ in a] == [k for k, _ in b] and all(abs(float(x[1] - y[1])) <= 1e-12 for x, y in zip(a, b)) for a, b in zip(got[1], want))
+            ctx.count("shift_container", cform)
+            if not same:
+                ctx.witness("shift-container-form", f"ShiftedParameters built from the same first-order terms as a {cform} has other derivatives "
+                            f"than the frozenset original (input parameter {i})", inp0, {"got": str(got)[:400], "original": str(want)[:400]})
     reqs.append(f"c09sp 1 | {menc}")
     info["req"]["sp1"] = len(reqs) - 1
     if order2:
@@ -513,15 +765,33 @@ def analyse_mapping(ctx: Ctx, what, pm, vals, state, reqs, pend, order2=True, sa
     # 3. shifted raw parameter vectors
     if d1 is not None:
         try:
-            r1 = [d.get_shifted_parameters_and_coef(fvals) for d in d1]
+            r1 = [d.get_shifted_parameters_and_coef(pvals) for d in d1]
             real["sh1"] = ("ok", r1)
+            # call history on the same objects: another point in between must not change the answer for this one
+            other = [v + 0.5 for v in fvals]
+            ro = [d.get_shifted_parameters_and_coef(other) for d in d1]
+            r1b = [d.get_shifted_parameters_and_coef(fvals) for d in d1]
+            if [canon_pairs(x) for x in r1b] != [canon_pairs(x) for x in r1]:
+                ctx.witness("call-history", "get_shifted_parameters_and_coef on the same ShiftedParameters object gives a different "
+                            "answer for the same point after a call with another point", inp0,
+                            {"first": str(r1)[:300], "again": str(r1b)[:300]})
+            phis_o = py_phi(ins, outs, entries, [Fraction(v) + Fraction(1, 2) for v in vals])
+            if phis is not None and phis_o is not None:
+                # the second point on the same objects: the same quarter-turn shifts and coefficients around ITS raw angles
+                for a, b in zip(r1, ro):
+                    da, db = decode_real_terms(a, phis), decode_real_terms(b, phis_o)
+                    if da is not None and da != db:
+                        ctx.witness("call-history", "get_shifted_parameters_and_coef at a second point (every parameter + 1/2) on the "
+                                    "same ShiftedParameters objects is not that point's raw angles with the same shifts", inp0,
+                                    {"first_point": str(a)[:300], "second_point": str(b)[:300], "raw_angles_second_point": [str(x) for x in phis_o]})
+                        break
         except Exception as e:  # noqa: BLE001
             real["sh1"] = ("err", exc_name(e))
         reqs.append(f"c09shifted 1 | {menc} | {venc}")
         info["req"]["sh1"] = len(reqs) - 1
         if order2 and d2 is not None:
             try:
-                r2 = [[d.get_shifted_parameters_and_coef(fvals) for d in row] for row in d2]
+                r2 = [[d.get_shifted_parameters_and_coef(pvals) for d in row] for row in d2]
                 real["sh2"] = ("ok", r2)
             except Exception as e:  # noqa: BLE001
                 real["sh2"] = ("err", exc_name(e))
@@ -531,8 +801,13 @@ def analyse_mapping(ctx: Ctx, what, pm, vals, state, reqs, pend, order2=True, sa
     log = []
     info["mocklog"] = log
     mock = mock_estimator(phis or [], log)
+    wrapped = ctx.rng.random() < 0.4  # the create_* entry points instead of the plain functions
+    ctx.count("entry_point", "create_*" if wrapped else "plain")
     try:
-        g = parameter_shift_gradient_estimates(None, state, fvals, mock)
+        if wrapped:
+            g = create_parameter_shift_gradient_estimator(mock)(None, state, pvals)
+        else:
+            g = parameter_shift_gradient_estimates(None, state, pvals, mock)
         real["grad"] = ("ok", list(g.values))
     except Exception as e:  # noqa: BLE001
         real["grad"] = ("err", exc_name(e))
@@ -540,12 +815,18 @@ def analyse_mapping(ctx: Ctx, what, pm, vals, state, reqs, pend, order2=True, sa
     info["req"]["grad"] = len(reqs) - 1
     if order2:
         try:
-            h = parameter_shift_hessian_estimates(None, state, fvals, mock)
+            if wrapped:
+                h = create_parameter_shift_hessian_estimator(mock)(None, state, pvals)
+            else:
+                h = parameter_shift_hessian_estimates(None, state, pvals, mock)
             real["hess"] = ("ok", [list(r) for r in h.values])
         except Exception as e:  # noqa: BLE001
             real["hess"] = ("err", exc_name(e))
         reqs.append(f"c09grad 2 | {menc} | {venc}")
         info["req"]["hess"] = len(reqs) - 1
+    if snapshot(pvals) != snap:
+        ctx.witness("params-mutated", f"the caller's parameter container ({form}) was modified in place", inp0,
+                    {"before": snap[1], "after": snapshot(pvals)[1]})
     nontrivial = any(t for d in (real.get("sp1", ("", []))[1] if real.get("sp1", ("err",))[0] == "ok" else []) for t in d)
     ctx.case((what.split(":")[0], menc, venc), nontrivial, sample)
     ctx.count("mapping_kind", what.split(":")[0])
@@ -662,7 +943,7 @@ def compare_pending(ctx: Ctx, reqs, pend):
                 rvf = None if any(x is None for x in rows) else rows
             if rvf != mv:
                 ctx.disagree(f"{name} (mock estimator)", inp, str(rv)[:400], r[:400])
-        if len(ctx.disagreements) > info["_d0"] and info.get("spec") is not None and info["what"] in ("linear", "primitive"):
+        if len(ctx.disagreements) > info["_d0"] and info.get("spec") is not None and info["what"] in ("linear", "primitive", "combined"):
             TARGETS.append((info["what"], info["spec"]))
 
 
@@ -679,13 +960,53 @@ def targeted_search(ctx: Ctx, limit=40):
     worst = {"grad": 0.0, "hess": 0.0, "symm": 0.0, "num_ratio": 0.0}
     for flavour, spec in TARGETS[:limit]:
         try:
-            c = build_primitive(spec) if flavour == "primitive" else build_linear(spec)
+            c = build_real(spec)
         except Exception:  # noqa: BLE001
             continue
         theta = [rng.uniform(-3, 3) + 0.37 * i for i in range(spec["P"])]
         validate_one(ctx, spec, c, flavour + "+targeted", theta, numpy_estimator(spec), worst, lambda: True)
         ctx.evaluations += 1
     ctx.extra["targeted_search"] = {"targets": len(TARGETS), "examined": min(len(TARGETS), limit)}
+
+
+def random_build_options(rng):
+    b = {"kind": "linear"}
+    if rng.random() < 0.3:
+        b["lazy"] = True  # parameters declared between the gates, just before their first use
+    if rng.random() < 0.2:
+        b["add_parameter"] = True
+    if rng.random() < 0.3:
+        b["int_coef"] = True  # integral coefficients handed over as Python ints
+    b["post"] = rng.choice([None, None, None, "freeze", "mutable_copy"])
+    return b
+
+
+def concat_case(rng, first_params=None):
+    """two separately built circuits (linear mapped or plain parametric, separate input parameters) joined by + / extend /
+    += / combine; the spec is the concatenation"""
+    kinds = rng.choice([("linear", "linear"), ("linear", "linear"), ("linear", "primitive"), ("primitive", "linear"), ("primitive", "primitive")])
+    parts = []
+    n = rng.randint(1, 3)
+    for j, kind in enumerate(kinds):
+        if kind == "primitive":
+            p = primitive_spec(rng)
+            while p["n"] > n or len(p["gates"]) > 3:
+                p = primitive_spec(rng)
+            p["build"] = {"kind": "primitive"}
+        else:
+            p = gen_spec(rng, max_len=3, max_n=n) if (j or first_params is None) else gen_spec(rng, P=first_params, min_param_gates=1, max_len=3, max_n=n)
+            p["build"] = random_build_options(rng)
+            p["build"]["post"] = None
+        parts.append(p)
+    spec = concat_specs(parts[0], parts[1])
+    spec["n"] = n
+    for p in parts:
+        p["n"] = n
+        p["op"] = []
+    spec["op"] = gen_op(rng, n)
+    spec["build"] = {"kind": "concat", "parts": parts, "how": rng.choice(["add", "add", "extend", "iadd", "combine"]),
+                     "post": rng.choice([None, None, None, "freeze", "mutable_copy"])}
+    return spec
 
 
 def k_circuits(ctx: Ctx, n_cases: int):
@@ -697,27 +1018,30 @@ def k_circuits(ctx: Ctx, n_cases: int):
     for i in range(n_cases):
         r = rng.random()
         try:
-            if r < 0.6:
+            if r < 0.55:
                 spec = gen_spec(rng)
-                c = build_linear(spec)
+                spec["build"] = random_build_options(rng)
+                c = build_real(spec)
                 what = "linear"
-            elif r < 0.72:
+            elif r < 0.67:
                 spec = primitive_spec(rng)
-                c = build_primitive(spec)
+                spec["build"] = {"kind": "primitive", "post": rng.choice([None, None, "freeze", "mutable_copy"])}
+                c = build_real(spec)
                 what = "primitive"
             elif r < 0.88:
-                a, b = gen_spec(rng, max_len=3), gen_spec(rng, max_len=3)
-                n = max(a["n"], b["n"])
-                spec = concat_specs(a, b)
-                c = build_linear(a, n) + build_linear(b, n)
+                spec = concat_case(rng)
+                c = build_real(spec)
                 what = "combined"
             else:
                 spec = gen_spec(rng, P=rng.choice([1, 2]), min_param_gates=1, max_len=3)
                 sub = build_linear(spec)
                 c = sub + sub
                 what = "sub+sub"
-        except Exception as e:  # noqa: BLE001
-            raise InfraError(f"could not build a real circuit from a generated spec: {e!r}")
+        except Exception as e:  # noqa: BLE001 — the construction API is real code too: an output, not an infra fault
+            ctx.disagree("construction of a well-formed circuit through the public API", {"build": spec.get("build"), "gates": spec["gates"]},
+                         f"raises {exc_name(e)}: {str(e)[:200]}", "builds")
+            continue
+        ctx.count("construction", json.dumps({k: v for k, v in (spec.get("build") or {}).items() if k != "parts" and v}, sort_keys=True))
         pm = c.param_mapping
         P = len(pm.in_params)
         vals = [dyadic(rng) for _ in range(P)]
@@ -725,7 +1049,7 @@ def k_circuits(ctx: Ctx, n_cases: int):
             vals = vals[:-1]  # too few values -> KeyError in the mapper (or silently unused)
         elif rng.random() < 0.04:
             vals = vals + [dyadic(rng)]
-        state = quantum_state(spec["n"] if what != "combined" else c.qubit_count, circuit=c)
+        state = quantum_state(c.qubit_count if what == "combined" else spec["n"], circuit=c)
         big = len(pm.out_params) > 6 or P > 4
         analyse_mapping(ctx, what, pm, vals, state, reqs, pend, order2=not big,
                         sample={"source": what, "spec_gates": [g["k"] for g in spec["gates"]]} if i < 3 else None, spec=spec)
@@ -819,7 +1143,7 @@ def exhaustive_small(ctx: Ctx):
 
 def k_numerical(ctx: Ctx, n_cases: int):
     """numerical_gradient_estimates with an exact rational mock estimator"""
-    from quri_parts.core.estimator.gradient import numerical_gradient_estimates
+    from quri_parts.core.estimator.gradient import create_numerical_gradient_estimator, numerical_gradient_estimates
 
     rng = ctx.rng
     reqs, pend = [], []
@@ -829,29 +1153,44 @@ def k_numerical(ctx: Ctx, n_cases: int):
         delta = rng.choice([Fraction(1, 2 ** k) for k in range(1, 7)] + [Fraction(-1, 8), Fraction(0), Fraction(2)])
         seen = []
 
-        def mock(op, state, vs, seen=seen):
+        ret_mode = rng.choice(["list", "list", "iter", "tuple"])
+
+        def mock(op, state, vs, seen=seen, ret_mode=ret_mode):
             out = []
             for v in vs:
-                seen.append([Fraction(x) for x in v])
-                s = sum((i + 1) * Fraction(x) * Fraction(x) for i, x in enumerate(v))
+                seen.append([Fraction(float(x)) for x in v])
+                s = sum((i + 1) * Fraction(float(x)) * Fraction(float(x)) for i, x in enumerate(v))
                 if len(v):
-                    s += Fraction(v[0]) * Fraction(v[-1])
+                    s += Fraction(float(v[0])) * Fraction(float(v[-1]))
                 out.append(Est(complex(float(s)), 0.0))
-            return out
+            return iter(out) if ret_mode == "iter" else tuple(out) if ret_mode == "tuple" else out
 
+        fvals = [float(v) for v in vals]
+        forms = THETA_FORMS + (INT_THETA_FORMS if all(v == int(v) for v in fvals) else [])
+        form = rng.choice(forms) if rng.random() < 0.6 else "list"
+        pvals = apply_theta_form(form, fvals)
+        snap = snapshot(pvals)
+        fdelta = int(delta) if (delta.denominator == 1 and rng.random() < 0.5) else float(delta)
+        ctx.count("numerical_param_container", form)
         try:
-            g = numerical_gradient_estimates(None, None, [float(v) for v in vals], mock, float(delta))
+            if rng.random() < 0.4:
+                g = create_numerical_gradient_estimator(mock, fdelta)(None, None, pvals)
+            else:
+                g = numerical_gradient_estimates(None, None, pvals, mock, fdelta)
             real = ("ok", values_to_fracs(g.values))
         except Exception as e:  # noqa: BLE001
             real = ("err", exc_name(e))
+        if snapshot(pvals) != snap:
+            ctx.witness("params-mutated", f"numerical gradient: the caller's parameter container ({form}) was modified in place",
+                        {"params": list(map(str, vals)), "delta": str(delta), "container": form}, {"before": snap[1], "after": snapshot(pvals)[1]})
         reqs.append(f"c09num {','.join(map(fr, vals)) or '-'} | {fr(delta)}")
-        pend.append((vals, delta, real, seen))
+        pend.append((vals, delta, real, seen, form))
         ctx.case(("num", tuple(vals), delta), P > 0)
         ctx.count("numerical_delta", str(delta))
     resp = ctx.driver(reqs, entry=ENTRY)
-    for (vals, delta, real, seen), r in zip(pend, resp):
+    for (vals, delta, real, seen, form), r in zip(pend, resp):
         ctx.traces += 1
-        inp = {"params": list(map(str, vals)), "delta": str(delta)}
+        inp = {"params": list(map(str, vals)), "delta": str(delta), "container": form}
         head, vecs = r.split(" # ")
         mvecs = [[pfr(x) for x in v.split(",") if x] for v in vecs.split(";")] if vecs.strip() else []
         if seen != mvecs:
@@ -868,8 +1207,10 @@ def k_numerical(ctx: Ctx, n_cases: int):
 # ---------------------------------------------------------------------------
 # oracle validation / failing-input search on the REAL code
 # ---------------------------------------------------------------------------
-def describe_case(spec, theta, flavour):
-    return {"flavour": flavour, "spec": spec, "theta": [repr(float(t)) for t in theta]}
+def describe_case(spec, theta, flavour, **more):
+    d = {"flavour": flavour, "spec": spec, "theta": [repr(float(t)) for t in theta]}
+    d.update({k: v for k, v in more.items() if v is not None})
+    return d
 
 
 def _imports_validate():
@@ -879,29 +1220,53 @@ def _imports_validate():
     return G, H
 
 
-def validate_one(ctx: Ctx, spec, c, flavour, theta, est, worst, choose):
-    """one oracle comparison on the real code; `choose()` picks between the plain functions and the create_* wrappers"""
+def make_state(spec, c):
+    import numpy as np
+
+    from quri_parts.core.state import quantum_state
+
+    if "init" in spec:
+        return quantum_state(spec["n"], circuit=c, vector=np.array([complex(a, b) for a, b in spec["init"]]))
+    return quantum_state(spec["n"], circuit=c)
+
+
+def validate_one(ctx: Ctx, spec, c, flavour, theta, est, worst, choose, theta_form="list", reuse=None, more=None):
+    """one oracle comparison on the real code; `choose()` picks between the plain functions and the create_* wrappers;
+    `theta_form`: the container the parameter point is handed over in; `reuse`: a dict carried over several calls on the same
+    circuit — the state object and the create_* estimator objects are then the same ones every time (call history)"""
     import numpy as np
 
     from oracle import c09deriv
-    from quri_parts.core.state import quantum_state
 
     G, H = _imports_validate()
     P = spec["P"]
     op = real_operator(spec)
-    if "init" in spec:
-        state = quantum_state(spec["n"], circuit=c, vector=np.array([complex(a, b) for a, b in spec["init"]]))
+    if reuse is not None and "state" in reuse:
+        state = reuse["state"]
     else:
-        state = quantum_state(spec["n"], circuit=c)
-    case = describe_case(spec, theta, flavour)
+        state = make_state(spec, c)
+        if reuse is not None:
+            reuse["state"] = state
+
+    def wrapper(name, make):
+        if reuse is None:
+            return make()
+        if name not in reuse:
+            reuse[name] = make()
+        return reuse[name]
+
+    theta = [float(t) for t in theta]
+    tobj = apply_theta_form(theta_form, theta)
+    snap = snapshot(tobj)
+    case = describe_case(spec, theta, flavour, theta_form=theta_form if theta_form != "list" else None, **(more or {}))
     gt, ht = c09deriv.grad_hess(spec, theta, want_hess=True)
     onorm = sum(abs(complex(*cc)) for _, cc in spec["op"])
     scale = 1.0 + onorm * (1.0 + max([sum(abs(float(x)) for x in row) for row in c09deriv.mapping_matrix(spec)[0]] + [0.0])) ** 2
     try:
         if choose():
-            g = G.parameter_shift_gradient_estimates(op, state, theta, est)
+            g = G.parameter_shift_gradient_estimates(op, state, tobj, est)
         else:
-            g = G.create_parameter_shift_gradient_estimator(est)(op, state, theta)
+            g = wrapper("ge", lambda: G.create_parameter_shift_gradient_estimator(est))(op, state, tobj)
         gv = np.array([complex(x) for x in g.values])
     except Exception as e:  # noqa: BLE001
         ctx.witness("gradient-raises", f"parameter-shift gradient raises {exc_name(e)} on a well-formed circuit", case)
@@ -914,9 +1279,9 @@ def validate_one(ctx: Ctx, spec, c, flavour, theta, est, worst, choose):
     if P <= 5 and len(c09deriv.param_gates(spec)) <= 6:
         try:
             if choose():
-                h = H.parameter_shift_hessian_estimates(op, state, theta, est)
+                h = H.parameter_shift_hessian_estimates(op, state, tobj, est)
             else:
-                h = H.create_parameter_shift_hessian_estimator(est)(op, state, theta)
+                h = wrapper("he", lambda: H.create_parameter_shift_hessian_estimator(est))(op, state, tobj)
             hv = np.array([[complex(x) for x in row] for row in h.values]).reshape(P, P)
         except Exception as e:  # noqa: BLE001
             ctx.witness("hessian-raises", f"parameter-shift Hessian raises {exc_name(e)} on a well-formed circuit", case)
@@ -931,14 +1296,14 @@ def validate_one(ctx: Ctx, spec, c, flavour, theta, est, worst, choose):
         if ds > 1e-9 * scale:
             ctx.witness("hessian-asymmetric", f"parameter-shift Hessian is not symmetric (|H − Hᵀ| = {ds:.3g})", case)
     # numerical gradient: |error| ≤ L3·δ²/24 (+ round-off) with L3 a rigorous bound on the third derivative,
-    # i.e. it converges to the same values as δ decreases
+    # i.e. it converges to the same values as δ decreases (a negative step is the same central difference)
     l3 = c09deriv.third_derivative_bound(spec)
-    for delta in (1e-2, 1e-3, 1e-4):
+    for delta in (1e-2, 1e-3, 1e-4, -1e-3):
         try:
             if delta == 1e-3:
-                ng = G.create_numerical_gradient_estimator(est, delta)(op, state, theta)
+                ng = wrapper("ne", lambda: G.create_numerical_gradient_estimator(est, delta))(op, state, tobj)
             else:
-                ng = G.numerical_gradient_estimates(op, state, theta, est, delta)
+                ng = G.numerical_gradient_estimates(op, state, tobj, est, delta)
             nv = np.array([complex(x) for x in ng.values])
         except Exception as e:  # noqa: BLE001
             ctx.witness("numerical-gradient-raises", f"numerical gradient raises {exc_name(e)}", case)
@@ -947,13 +1312,16 @@ def validate_one(ctx: Ctx, spec, c, flavour, theta, est, worst, choose):
             ctx.witness("numerical-gradient-value", f"numerical gradient has {len(nv)} entries for {P} parameters", case)
             break
         for i in range(P):
-            bound = l3[i] * delta * delta / 24 + 1e-8 * (1 + onorm)
+            bound = l3[i] * delta * delta / 24 + 1e-8 * (1 + onorm) * scale
             err = abs(nv[i] - gt[i])
             worst["num_ratio"] = max(worst["num_ratio"], err / bound)
             if err > bound:
                 ctx.witness("numerical-gradient-value",
                             f"numerical gradient (δ={delta}) is {err:.3g} away from the derivative, bound {bound:.3g}", case,
                             {"index": i, "real": str(nv[i]), "analytic": str(gt[i])})
+    if snapshot(tobj) != snap:
+        ctx.witness("params-mutated", f"the caller's parameter container ({theta_form}) was modified in place", case,
+                    {"before": snap[1], "after": snapshot(tobj)[1]})
 
 
 def get_qulacs_estimator():
@@ -965,58 +1333,182 @@ def get_qulacs_estimator():
         return None
 
 
+def get_exact_estimators(ctx=None):
+    """the exact (noise-free state-vector) ConcurrentParametricQuantumEstimators the library offers, by entry point"""
+    out = []
+
+    def a():
+        from quri_parts.qulacs.estimator import create_qulacs_vector_concurrent_parametric_estimator
+
+        return create_qulacs_vector_concurrent_parametric_estimator()
+
+    def b():
+        from quri_parts.core.estimator import create_concurrent_parametric_estimator
+        from quri_parts.qulacs.estimator import create_qulacs_vector_parametric_estimator
+
+        return create_concurrent_parametric_estimator(create_qulacs_vector_parametric_estimator())
+
+    def c():
+        from quri_parts.core.estimator import create_concurrent_parametric_estimator_from_concurrent_estimator
+        from quri_parts.qulacs.estimator import create_qulacs_vector_concurrent_estimator
+
+        return create_concurrent_parametric_estimator_from_concurrent_estimator(create_qulacs_vector_concurrent_estimator())
+
+    def total(name, est):
+        # The property's estimator is total: an empty batch of parameter vectors (all the gradient code has to ask for when
+        # no gate angle depends on a parameter) has the empty answer.  Some library estimators reject an empty batch
+        # (qulacs concurrent estimator: ValueError "No state specified."); that is the estimator's contract (C04), not
+        # the shift rule's — counted in the evidence, answered here.
+        def wrapped(op, state, plist):
+            if len(plist) == 0:
+                try:
+                    return list(est(op, state, plist))
+                except Exception as e:  # noqa: BLE001
+                    if ctx is not None:
+                        ctx.count("estimator_rejects_empty_batch", f"{name}:{exc_name(e)}")
+                    return []
+            return est(op, state, plist)
+
+        return wrapped
+
+    for name, mk in (("qulacs-vector-concurrent-parametric", a), ("core-concurrent-of-qulacs-vector-parametric", b),
+                     ("core-parametric-of-qulacs-vector-concurrent", c)):
+        try:
+            out.append((name, total(name, mk())))
+        except Exception:  # noqa: BLE001 — optional
+            pass
+    return out
+
+
+def general_coefs(rng, spec):
+    """replace some dyadic coefficients / constants by arbitrary floats (stored as their exact rational value)"""
+    for g in spec["gates"]:
+        if "ang" in g and "f" in g["ang"]:
+            for item in g["ang"]["f"]:
+                if rng.random() < 0.5:
+                    if item[0] == "c":
+                        x = rng.uniform(-7, 7)
+                    else:
+                        x = rng.choice([rng.uniform(-2.5, 2.5), 1e-3 * rng.uniform(-1, 1), rng.uniform(4, 7), float(rng.randint(-3, 3))])
+                    item[1] = list(_nd(Fraction(x)))
+
+
+def refresh_concat(spec):
+    parts = spec["build"]["parts"]
+    cat = concat_specs(parts[0], parts[1])
+    spec["gates"], spec["P"] = cat["gates"], cat["P"]
+
+
+def gen_case(rng):
+    """(spec with construction recipe, flavour) for the oracle validation"""
+    import numpy as np
+
+    r = rng.random()
+    if r < 0.1:
+        # every declared parameter drives exactly one gate with coefficient 1, in an order different from the
+        # declaration order (a "trivial" mapping that is not the identity)
+        spec = primitive_spec(rng)
+        perm = list(range(spec["P"]))
+        rng.shuffle(perm)
+        for g in spec["gates"]:
+            if "ang" in g:
+                g["ang"] = {"p": perm[g["ang"]["p"]]} if rng.random() < 0.6 else {"f": [[perm[g["ang"]["p"]], [1, 1]]]}
+        spec["build"] = random_build_options(rng)
+        flavour = "linear-permuted"
+    elif r < 0.55:
+        spec = gen_spec(rng, P=rng.choice([0, 1, 2, 2, 3, 4, 5]), min_param_gates=1)
+        spec["build"] = random_build_options(rng)
+        if rng.random() < 0.3:
+            general_coefs(rng, spec)
+        flavour = "linear"
+    elif r < 0.68:
+        spec = primitive_spec(rng)
+        spec["build"] = {"kind": "primitive", "post": rng.choice([None, None, "freeze", "mutable_copy"])}
+        flavour = "primitive"
+    else:
+        spec = concat_case(rng, first_params=rng.choice([1, 2]))
+        if rng.random() < 0.3:
+            for p in spec["build"]["parts"]:
+                if p["build"].get("kind") != "primitive":
+                    general_coefs(rng, p)
+            refresh_concat(spec)
+        flavour = "combined:" + "+".join(p["build"].get("kind", "linear") for p in spec["build"]["parts"]) + ":" + spec["build"]["how"]
+    q = rng.random()
+    if q < 0.12:
+        term = [(k, rng.randint(1, 3)) for k in range(spec["n"]) if rng.random() < 0.7]
+        spec["op"] = [[term, [1.0, 0.0]]]
+        spec["build"]["bare_label"] = True  # a bare PauliLabel (or PAULI_IDENTITY) instead of an Operator
+    elif q < 0.15:
+        spec["op"] = []  # the zero operator
+    if rng.random() < 0.15:
+        amp = np.array([complex(rng.gauss(0, 1), rng.gauss(0, 1)) for _ in range(1 << spec["n"])])
+        amp = amp / np.linalg.norm(amp)
+        spec["init"] = [[float(a.real), float(a.imag)] for a in amp]
+        flavour += "+vector"
+    return spec, flavour
+
+
 def validate(ctx: Ctx, budget_s: float, max_cases: int):
     """real parameter-shift gradient / Hessian and numerical gradient with an exact estimator vs generator-insertion
     derivatives computed from the plain spec by oracle/c09deriv.py"""
-    import numpy as np
-
-    qulacs_est = get_qulacs_estimator()
+    pool = get_exact_estimators(ctx)
     rng = ctx.rng
     t0 = time.time()
     n_eval = 0
     worst = {"grad": 0.0, "hess": 0.0, "symm": 0.0, "num_ratio": 0.0}
     while time.time() - t0 < budget_s and n_eval < max_cases:
-        r = rng.random()
-        if r < 0.1:
-            # every declared parameter drives exactly one gate with coefficient 1, in an order different from the
-            # declaration order (a "trivial" mapping that is not the identity)
-            spec = primitive_spec(rng)
-            perm = list(range(spec["P"]))
-            rng.shuffle(perm)
-            for g in spec["gates"]:
-                if "ang" in g:
-                    g["ang"] = {"p": perm[g["ang"]["p"]]}
-            c, flavour = build_linear(spec), "linear-permuted"
-        elif r < 0.65:
-            spec = gen_spec(rng, P=rng.choice([1, 2, 2, 3, 4, 5]), min_param_gates=1)
-            c, flavour = build_linear(spec), "linear"
-        elif r < 0.8:
-            spec = primitive_spec(rng)
-            c, flavour = build_primitive(spec), "primitive"
+        spec, flavour = gen_case(rng)
+        P = spec["P"]
+        if rng.random() < 0.2:
+            # legal argument types other than a list of floats holding integers
+            theta = [float(rng.randint(-3, 3)) for _ in range(P)]
+            theta_form = rng.choice(INT_THETA_FORMS)
         else:
-            a, b = gen_spec(rng, P=rng.choice([1, 2]), min_param_gates=1, max_len=3), gen_spec(rng, max_len=3)
-            n = max(a["n"], b["n"])
-            spec = concat_specs(a, b)
-            c, flavour = build_linear(a, n) + build_linear(b, n), "combined"
-        theta = [float(dyadic(rng)) if rng.random() < 0.3 else rng.uniform(-7, 7) for _ in range(spec["P"])]
-        if rng.random() < 0.15:
-            # legal argument types other than a list of floats: Python ints, a tuple, an integer numpy array
-            ints = [rng.randint(-3, 3) for _ in range(spec["P"])]
-            theta = rng.choice([ints, tuple(ints), np.array(ints, dtype=np.int64)])
-            flavour_suffix = "+int-params"
+            theta = [float(dyadic(rng)) if rng.random() < 0.3 else rng.uniform(-7, 7) for _ in range(P)]
+            theta_form = rng.choice(THETA_FORMS) if rng.random() < 0.3 else "list"
+        hermitian = all(cc[1] == 0.0 for _, cc in spec["op"])
+        if pool and rng.random() < 0.45:
+            ename, est = rng.choice(pool)
         else:
-            flavour_suffix = ""
-        if rng.random() < 0.15:
-            amp = np.array([complex(rng.gauss(0, 1), rng.gauss(0, 1)) for _ in range(1 << spec["n"])])
-            amp = amp / np.linalg.norm(amp)
-            spec["init"] = [[float(a.real), float(a.imag)] for a in amp]
-            flavour += "+vector"
-        use_q = qulacs_est is not None and rng.random() < 0.4
-        est = qulacs_est if use_q else numpy_estimator(spec)
-        ctx.count("validate_estimator", "qulacs" if use_q else "numpy-dense")
+            mode = rng.choice(["list", "list", "iter", "tuple"] + (["real"] if hermitian else []))
+            ename, est = "numpy-dense:" + mode, numpy_estimator(spec, mode)
+        ctx.count("validate_estimator", ename)
         ctx.count("validate_flavour", flavour)
+        ctx.count("validate_param_container", theta_form)
+        ctx.count("validate_params", str(P))
+        pick = lambda: rng.random() < 0.5  # noqa: E731
+        b = spec["build"]
+        m = rng.random()
+        try:
+            if m < 0.3 and b.get("kind", "linear") == "linear" and not b.get("post") and len(spec["gates"]) >= 2:
+                # the circuit object is used for a gradient, then extended in place, then used again
+                k = rng.randint(1, len(spec["gates"]) - 1)
+                c = build_linear(spec, upto=k)
+                P0 = len(c.param_mapping.in_params)
+                pre = {key: v for key, v in spec.items() if key != "build"}
+                pre.update({"P": P0, "gates": spec["gates"][:k], "build": {kk: v for kk, v in b.items()}})
+                ctx.count("validate_history", "grown-in-place")
+                validate_one(ctx, pre, c, flavour + "+prefix", theta[:P0], est, worst, pick, theta_form, more={"estimator": ename})
+                grow_linear(c, spec, k)
+                validate_one(ctx, spec, c, flavour + "+grown", theta, est, worst, pick, theta_form, more={"estimator": ename, "grown_from": k})
+            elif m < 0.5:
+                # the same state and create_* estimator objects at three points (the first one twice)
+                c = build_real(spec)
+                other = [t + rng.uniform(0.3, 1.3) for t in theta] if theta_form not in INT_THETA_FORMS or theta_form == "mixed" else [t + 1.0 for t in theta]
+                reuse = {}
+                ctx.count("validate_history", "same-objects-3-points")
+                for j, th in enumerate((theta, other, theta)):
+                    validate_one(ctx, spec, c, flavour + f"+reused#{j}", th, est, worst, pick, theta_form, reuse=reuse, more={"estimator": ename})
+            else:
+                c = build_real(spec)
+                ctx.count("validate_history", "fresh")
+                validate_one(ctx, spec, c, flavour, theta, est, worst, pick, theta_form, more={"estimator": ename})
+        except InfraError:
+            raise
+        except Exception as e:  # noqa: BLE001 — construction / mutation of the real circuit failed
+            ctx.disagree("construction of a well-formed circuit through the public API", {"flavour": flavour, "spec": spec},
+                         f"raises {exc_name(e)}: {str(e)[:200]}", "builds")
         n_eval += 1
-        validate_one(ctx, spec, c, flavour + flavour_suffix, theta, est, worst, lambda: rng.random() < 0.5)
     prev = ctx.extra.get("oracle_validation", {"cases": 0})
     ctx.extra["oracle_validation"] = {"cases": prev["cases"] + n_eval,
                                       **{k: max(float(f"{v:.3g}"), prev.get(k, 0.0)) for k, v in worst.items()}}
@@ -1024,10 +1516,45 @@ def validate(ctx: Ctx, budget_s: float, max_cases: int):
     ctx.search_budget_s = round(ctx.search_budget_s + (time.time() - t0), 2)
 
 
+def unsupported_state_check(ctx: Ctx):
+    """gradient.py's documented error branch: when with_primitive_circuit() does not give a parametric state the function
+    refuses (NotImplementedError) instead of handing the estimator something that is not a parametric state"""
+    from quri_parts.core.state import quantum_state
+
+    G, _ = _imports_validate()
+    pm = make_direct_mapping([0], [0], [(0, ("P", 0))])
+    for name, ret in (("None", None), ("object()", object()), ("a non-parametric CircuitQuantumState", quantum_state(1, bits=0))):
+        called = []
+
+        def est(op, state, ps, called=called):
+            called.append(type(state).__name__)
+            return [Est(0j, 0.0) for _ in ps]
+
+        try:
+            G.parameter_shift_gradient_estimates(None, stub_state(pm, primitive=ret), [0.5], est)
+            out = "returned"
+        except Exception as e:  # noqa: BLE001
+            out = exc_name(e)
+        ctx.count("unsupported_state", out)
+        ctx.evaluations += 1
+        if out == "returned" or called:
+            ctx.witness("nonparametric-state-not-rejected",
+                        f"parameter_shift_gradient_estimates: with_primitive_circuit() gives {name}; the call {out} and the estimator "
+                        f"was invoked with {called or 'nothing'} instead of the documented NotImplementedError",
+                        {"with_primitive_circuit": name, "mapping": "0 # 0 # 0=P0", "vals": "1/2"})
+
+
 def replay_spec(ctx: Ctx, case):
     """re-run one recorded oracle case (witness input produced by describe_case)"""
     spec, flavour = case["spec"], case["flavour"]
-    spec["op"] = [[[tuple(t) for t in term], c] for term, c in spec["op"]]
+
+    def fix_op(sp):
+        sp["op"] = [[[tuple(t) for t in term], c] for term, c in sp["op"]]
+        for p in (sp.get("build") or {}).get("parts", []):
+            fix_op(p)
+
+    fix_op(spec)
+    spec.setdefault("build", {"kind": "primitive"} if flavour.startswith("primitive") else {"kind": "linear"})
     theta = [float(t) for t in case["theta"]]
     if flavour == "sub+sub primitive":
         f6_check_primitive(ctx)
@@ -1035,12 +1562,26 @@ def replay_spec(ctx: Ctx, case):
     if flavour.startswith("sub+sub"):
         f6_check(ctx, [(spec, theta[-1:])])
         return
-    c = build_primitive(spec) if flavour.startswith("primitive") else build_linear(spec)
     worst = {"grad": 0.0, "hess": 0.0, "symm": 0.0, "num_ratio": 0.0}
-    ests = [numpy_estimator(spec)] + ([get_qulacs_estimator()] if get_qulacs_estimator() is not None else [])
+    hermitian = all(cc[1] == 0.0 for _, cc in spec["op"])
+    ests = [numpy_estimator(spec, m) for m in ["list", "iter", "tuple"] + (["real"] if hermitian else [])] + [e for _, e in get_exact_estimators()]
+    form = case.get("theta_form", "list")
     for est in ests:
         for pick in (True, False):
-            validate_one(ctx, spec, c, flavour, theta, est, worst, lambda: pick)
+            if "grown_from" in case:
+                k = case["grown_from"]
+                c = build_linear(spec, upto=k)
+                P0 = len(c.param_mapping.in_params)
+                pre = dict(spec)
+                pre.update({"P": P0, "gates": spec["gates"][:k]})
+                validate_one(ctx, pre, c, flavour + "+prefix", theta[:P0], est, worst, lambda: pick, form)
+                grow_linear(c, spec, k)
+                validate_one(ctx, spec, c, flavour, theta, est, worst, lambda: pick, form, more={"grown_from": k})
+            else:
+                c = build_real(spec)
+                reuse = {}
+                for th in (theta, [t + 1.0 for t in theta], theta):
+                    validate_one(ctx, spec, c, flavour, th, est, worst, lambda: pick, form, reuse=reuse)
     ctx.evaluations += 1
 
 
@@ -1197,7 +1738,13 @@ def run(ctx: Ctx, replay=None) -> int:
                 "gradient.py / hessian.py / numerical gradient with an exact integer mock estimator vs the Lean model, all exact "
                 "(rationals); distinct = distinct (mapping, values); nontrivial = at least one shift term. Plus oracle validation "
                 "(counted in evaluations only): real gradient / Hessian / numerical gradient with an exact estimator vs "
-                "generator-insertion derivatives of oracle/c09deriv.py to 1e-7, Hessian symmetry, δ² error bound for δ = 1e-2, 1e-3, 1e-4")
+                "generator-insertion derivatives of oracle/c09deriv.py to 1e-7, Hessian symmetry, δ² error bound for δ = 1e-2, ±1e-3, 1e-4; "
+                "circuits by construction recipe (lazy / single parameter declaration, int coefficients, arbitrary float coefficients, "
+                "A + B / extend / += / combine of linear-mapped and plain parametric parts, frozen / mutable copies), parameter points "
+                "as list / tuple / ndarray / numpy scalars / ints / int arrays, operators as Operator / bare PauliLabel / identity / zero, "
+                "four exact estimators returning list / iterator / tuple / real values, call histories (same state and create_* objects at "
+                "three points, circuit extended in place between two gradients). Restated documentation: seq_mapper values and length "
+                "check, is_trivial_mapping on well-formed mappings, NotImplementedError for a non-parametric primitive state")
     ctx.trusted = TRUSTED
     ctx.assumptions = ASSUMPTIONS
     mods = [PROPS] if ctx.quick() else [PROPS, PROPS_REAL]
@@ -1231,6 +1778,8 @@ def run(ctx: Ctx, replay=None) -> int:
             exhaustive_small(ctx)
     with ctx.timed("f6_replay"):
         f6_replay(ctx, ctx.n(5, 60))
+    with ctx.timed("error_branches"):
+        unsupported_state_check(ctx)
     broken = bool(ctx.failed_obligations or ctx.disagreements)
     if TARGETS:
         with ctx.timed("targeted_search"):
